@@ -31,11 +31,12 @@ def _cat(a: set, b: set) -> set:
 
 
 class Walker:
-    def __init__(self, classify, follow=None):
+    def __init__(self, classify, follow=None, assert_raises=True):
         """classify(node) -> label | None, called for every expression node and
         for Assign/AugAssign/Delete/Raise/Return statements (pre-evaluation
         position: statements are labelled *after* their sub-expressions)."""
         self.classify = classify
+        self.assert_raises = assert_raises
         self.in_try = 0
         self.depth = 0
         self.inlining = []
@@ -159,6 +160,8 @@ class Walker:
             return {(e, "fall") for e in self._label(st, seqs)}
         if isinstance(st, ast.Assert):
             t = self.ex(st.test)
+            if not self.assert_raises:
+                return {(e, "fall") for e in t}
             return {(e, "fall") for e in t} | {(e, "raise") for e in t}
         if isinstance(st, ast.Delete):
             seqs = {()}
